@@ -292,3 +292,36 @@ class Opaque(Sort):
 
     def from_model(self, ev, v):
         return self.native() if callable(self.native) else self.native
+
+
+class Operand(Sort):
+    """A PDF operand: a number (modelled as a real) or an ill-typed value
+    (None, or a name-like byte string that float()/int() reject)."""
+
+    def __init__(self, bad=(None, b"x"), integral=False):
+        self.bad = bad
+        self.integral = integral
+
+    def fresh(self, ctx, name):
+        if ctx.choose([True, False], name + "-is-number"):
+            return ctx.fresh_int(name) if self.integral else ctx.fresh_real(name)
+        return ctx.choose(list(self.bad), name + "-bad") if len(self.bad) > 1 else self.bad[0]
+
+    def sample(self, rng):
+        if rng.random() < 0.8:
+            if self.integral:
+                return rng.randint(-9, 9)
+            return Fraction(rng.randint(-64, 64), rng.choice([1, 2, 4, 8]))
+        return rng.choice(self.bad)
+
+    def from_model(self, ev, v):
+        if isinstance(v, z3.ExprRef):
+            return int(ev(v)) if self.integral else Fraction(ev(v))
+        return v
+
+
+def is_number(v):
+    """contract-side test usable on symbolic and concrete operands"""
+    if isinstance(v, z3.ExprRef):
+        return True
+    return isinstance(v, (int, float, Fraction)) and not isinstance(v, bool)
